@@ -26,12 +26,22 @@ def build(ctx):
     site = NSP + ".build"
     tr = ctx.trace(NSP, "build")
     s1, s2 = P("sample1"), P("sample2")
-    un = [e for e in tr.calls() if e.callee == ("lib", "numpy.unique")]
-    if not ctx.anchor(site, "pooling through np.unique", len(un) == 1 and un[0].args):
+    un = [e for e in tr.calls() if e.callee == ("lib", "numpy.unique") and dict(e.kwargs).get("return_inverse") == T.TRUE]
+    if not ctx.anchor(site, "pooling through np.unique(..., return_inverse=True)", len(un) == 1 and un[0].args):
         return
     pooled = un[0].args[0]
-    ok = pooled == atom(("call", "numpy.vstack", (atom(("tuple", (s1, s2))),), ()))
-    ctx.ob("FRM", site, "pooled data = sample1 stacked on sample2", ok, q.short(pooled, 80), un[0])
+    pa = pooled.single_atom()
+    parts = None
+    if pa is not None and pa[0] == "call" and pa[1] == "numpy.vstack" and pa[2]:
+        tp = pa[2][0].single_atom()
+        if tp is not None and tp[0] in ("tuple", "list") and len(tp[1]) == 2:
+            parts = tp[1]
+    own = lambda t, mine, other: T.mentions(t, lambda a: a == ("param", mine)) and not T.mentions(t, lambda a: a == ("param", other))
+    ok = parts is not None and own(parts[0], "sample1", "sample2") and own(parts[1], "sample2", "sample1")
+    ctx.ob("FRM", site, "pooled data = (rows of) sample1 stacked on (rows of) sample2", ok, q.short(pooled, 80), un[0])
+    if ok and parts[0] != s1:
+        # the first block is not sample1 itself (e.g. de-duplicated first): the split below must use the length of what was stacked
+        s1 = parts[0]
     ok = dict(un[0].kwargs).get("axis") == const(0) and dict(un[0].kwargs).get("return_inverse") == T.TRUE
     ctx.ob("FRM", site, "de-duplicated union with the inverse index (row-wise unique)", ok, "", un[0])
     inv = q.sub(un[0].result, 1)
